@@ -787,7 +787,7 @@ def impl_sections(text: str, parent_obj, style: str, opts: dict) -> list:
 
 # ------------------------------------------------------------------ known findings: exact defective behaviour
 def adjust_known(doc: dict, exp: list, opts: dict) -> tuple[list, set]:
-    """Rewrite the expectation the way the still-known defects of the tree distort it (C13-F5, C13-F6, C13-F9, C13-F10; F1-F4 and F7 are repaired
+    """Rewrite the expectation the way the still-known defects of the tree distort it (C13-F5, C13-F6; F1-F4, F7, F9 and F10 are repaired
     and have no classifier any more).
 
     Returns (adjusted expectation, ids of the findings whose gap predicate holds somewhere in this document).
@@ -805,35 +805,6 @@ def adjust_known(doc: dict, exp: list, opts: dict) -> tuple[list, set]:
         ei += 1
     for sec, e in pairs:
         k = sec["k"]
-        if style == "google" and sec.get("single"):
-            # C13-F9: with *_multiple_items=False the block is cut again with str.splitlines(), so every character that
-            # splitlines (but not split("\n")) treats as a line boundary comes back as "\n"
-            for it, ee in zip(sec["items"], e["value"]):
-                cut = "\n".join(ee["description"].splitlines())
-                if cut != ee["description"]:
-                    ee["description"] = cut
-                    hit.add("C13-F9")
-        if style == "numpy" and k in ("parameters", "other parameters"):
-            # C13-F10: names documented together share the signature entry of the FIRST name the signature knows
-            ei2 = 0
-            for it in sec["items"]:
-                names = [it["name"], *it.get("more_names", [])]
-                ees = e["value"][ei2:ei2 + len(names)]
-                ei2 += len(names)
-                if len(names) > 1:
-                    first = next((parent_param(parent, nm) for nm in names if parent_param(parent, nm) is not None), None)
-                    for ee in ees:
-                        want = dict(ee)
-                        if it["ann"] is None and "choices" not in it:
-                            want["annotation"] = first["ann"] if first else None
-                        if it["default"] is None and "choices" not in it:
-                            want.pop("value", None)
-                            if parent_default(first) is not None:
-                                want["value"] = parent_default(first)
-                        if want != ee:
-                            ee.clear()
-                            ee.update(want)
-                            hit.add("C13-F10")
         if style == "numpy" and k in ("returns", "yields", "receives"):
             # C13-F5: a bare `name` line (documented as "just the name") matches only the last alternative of _RE_RETURNS: it is the type
             for it, ee in zip(sec["items"], e["value"]):
@@ -1185,7 +1156,7 @@ def opts_sexp(opts: dict):
 
 def wsecs_sexp(doc: dict):
     """The written structure as a term of the Coq type [list wsec]; None when the document uses something the
-    Coq spec does not cover (Examples, non-default Returns/Receives modes)."""
+    Coq spec does not cover (Examples, `(type, optional)`, the `(type): ...` spelling of the unnamed mode)."""
     out = []
     for sec in doc["sections"]:
         k = sec["k"]
@@ -1196,17 +1167,20 @@ def wsecs_sexp(doc: dict):
         elif k == "admonition":
             out.append(["adm", sec["header"], _o(sec.get("title")), sec["lines"]])
         elif k in ITEM_KINDS:
-            if sec["single"] or not sec["named"]:
-                return None
             items = []
             for it in sec["items"]:
-                if it.get("sep") or it.get("optional"):
+                if it.get("optional") or it.get("parens"):
                     return None
                 ann = it["ann"]
                 if k in ("functions", "classes") and ann is not None:
                     ann = ann[len(it["name"]) + 1:-1]
-                items.append([_o(it["name"]), _o(ann), it["desc"][0], it["desc"][1:]])
-            out.append(["items", k, sec["header"], _o(sec.get("title")), items])
+                # blank lines that set the item apart from the next one are written after its continuation lines
+                items.append([_o(it["name"]), _o(ann), it["desc"][0], it["desc"][1:] + [""] * it.get("sep", 0)])
+            if sec["single"] or not sec["named"]:
+                # a Returns / Yields / Receives section written for non-default option values
+                out.append(["ret", not sec["single"], sec["named"], k, sec["header"], _o(sec.get("title")), items])
+            else:
+                out.append(["items", k, sec["header"], _o(sec.get("title")), items])
         else:
             return None
     return out
@@ -1398,46 +1372,56 @@ def check_string_oracle(ctx, n: int):
 
 
 # ------------------------------------------------------------------ check module interface
-LEVEL_TEXT = ("Google style: a machine-checked round-trip theorem at character level, for every indentation >= 1, every parent and every list of "
-              "free-text, item (Parameters, Other Parameters, Raises, Warns, Attributes, Functions, Classes, Modules, Returns, Yields, Receives; all "
-              "aliases of the keyword table regenerated from google.py; optional section titles) and admonition sections satisfying a decidable "
-              "well-formedness predicate: parse_google(render(secs)) = secs (kinds in written order, titles, names, annotations written or taken "
-              "from the signature, defaults, multi-line / blank-line / deeper-indented descriptions), plus no-leak (section i parses as it does alone) "
-              "and signature-fallback corollaries; the witnesses of the repaired findings F1, F2 are proved to round-trip. Sphinx style: a partial "
-              "round-trip theorem (param/var/raises/returns fields under every alias, any order, multi-line descriptions; result grouped in "
-              "Sphinx's fixed order) and the F8 witness. The models (parse_google main loop, block readers, every item reader, both regexes "
-              "hand-compiled, Examples reader, five item options; parse_sphinx with all seven field readers and their dictionaries) are tied to "
-              "the code by differential runs on rendered and perturbed docstrings, their string functions to CPython str/re, their renderers and "
-              "expectations to the harness's. Numpy style and every documented option are covered by direct evaluation "
-              "(written structure vs as_dict) only.")
+LEVEL_TEXT = ("Machine-checked round-trip theorems at character level for all three styles, each of the form parse(render(written)) = written "
+              "for every parent and every written structure satisfying a decidable well-formedness predicate. Google: every indentation >= 1, "
+              "every list of free-text, item (Parameters, Other Parameters, Raises, Warns, Attributes, Functions, Classes, Modules, Returns, Yields, "
+              "Receives; all aliases of the keyword table regenerated from google.py; optional section titles; blank lines between items) and "
+              "admonition sections: kinds in written order, titles, names, annotations written or taken from the signature, defaults, multi-line / "
+              "blank-line / deeper-indented descriptions; no hypothesis besides well-formedness. Numpy: optional leading text and every list of item "
+              "sections (parameters documented together, `, optional`, three default spellings, the four name/type spellings of Returns items, "
+              "dash-only lines inside descriptions, blank lines between items), admonitions and Deprecated sections, modulo the decidable known gap "
+              "C13-F6. Sphinx: the full field list (:param: with optional inline type, :type:, :var:, :vartype:, :raises:, :returns:, :rtype: under "
+              "every alias, any order, blank lines inside and after descriptions, one name as parameter and attribute), result grouped in Sphinx's "
+              "fixed order with the documented annotation precedence, modulo the decidable known gap C13-F8. Corollaries: no-leak (section i parses "
+              "as it does alone; Google, Numpy), signature fallback (per name for Numpy's combined parameters). Findings F5, F6, F8 are refuted by "
+              "witness inside the models; the witnesses of the repaired findings F1, F2 are proved to round-trip. The models (the three parsers' main "
+              "loops, block readers, every item reader, all regexes hand-compiled incl. the default-value regex, textwrap.dedent, Examples readers, "
+              "option modes) are tied to the code by differential runs on rendered and perturbed docstrings of each style, their string functions to "
+              "CPython str/re/textwrap, their renderers, expectations and gap predicates to the harness's, and every generated theorem instance is "
+              "replayed on the implementation.")
 LEVEL_NOTE = ("Trusted: Coq kernel, extraction, this harness (generators, renderers = documented syntax, expectation, canonicalisation). Annotation "
               "strings are compared as str(parse_docstring_annotation(x)) - expression parsing/printing is C03's subject; generated annotations are in "
-              "canonical form. The Google theorem covers default options, printable ASCII, no fenced code blocks in free text; Examples sections, "
-              "returns_multiple_items=False / returns_named_value=False modes are in the model and the differential check but not in the theorem; "
-              "ignore_init_summary and returns_type_in_property_summary are checked directly only. Sphinx theorem is partial: no separate "
-              ":type:/:vartype:/:rtype: fields, distinct names, no blank lines inside descriptions (the model has all of them). Numpy: no Coq model "
-              "(its three regexes and textwrap.dedent were not hand-compiled): direct evaluation only. Sphinx descriptions are compared "
-              "whitespace-normalised in the direct check (continuation lines are joined with blanks by design), exactly in the theorem instances. "
-              "Findings C13-F1, F2, F3, F4, F7 are repaired in the source (their witnesses are must-pass corpus cases, corpus/C13); the known "
-              "findings C13-F5, F6, F8 carry exact defect-adjusted expectations, so any other deviation still alarms.")
+              "canonical form (a Numpy choices item `{a, b}` is compared modulo that function). The theorems cover default options and printable "
+              "ASCII; not in any theorem but in the models and the differential checks: Examples sections, fenced code in free text, Google's "
+              "returns_multiple_items=False / *_named_value=False modes, `(type, optional)`, Numpy choices items, trim_doctest_flags, Numpy "
+              "ignore_init_summary; checked directly only: Google ignore_init_summary and returns_type_in_property_summary, non-ASCII text and "
+              "characters at which str.splitlines cuts (the model covers the ASCII ones). The Numpy written structure has no spelling for the bare "
+              "`name` form of a Returns item (finding C13-F5: read as the type). Known findings C13-F5, F6, F8 carry exact defect-adjusted "
+              "expectations in the direct check (F6, F8 are also the gap predicates of the theorems and are compared with the harness classifiers on "
+              "every case), so any other deviation still alarms. Findings C13-F1, F2, F3, F4, F7, F9, F10 are repaired in the source; their witnesses "
+              "are must-pass corpus cases (corpus/C13).")
 MODEL = ("Model.C13_run", "run_C13")
-COQ_TARGETS = ["Proofs/C13_strings.vo", "Proofs/C13_google.vo", "Proofs/C13_sphinx.vo"]
+COQ_TARGETS = ["Proofs/C13_strings.vo", "Proofs/C13_google.vo", "Proofs/C13_sphinx.vo", "Proofs/C13_numpy.vo", "Proofs/C13_sphinx_full.vo"]
 MODEL_TARGETS = ["Model/C13_run.vo"]        # not a dependency of the proofs: rebuilt when Gen/C13_tables.v changes
 RULE = ("seeded generation of written structures: parent (function with 0-4 annotated/defaulted/starred parameters and name/tuple return, generator "
         "or iterator, class/module with attributes, __init__, property, none) x 0-6 sections drawn from the kinds fitting the parent (10% any kind) in any "
         "order, 1-4 items each, names from the signature or unknown, annotations from 15 spellings, descriptions of 1-6 lines with blank lines, "
         "deeper indentation, colons, '):', section keywords, markup; section titles, aliases and letter case; admonitions with titles; Examples with "
         "prose/console chunks and doctest flags; free text with paragraphs, colon lines and fenced code; Google indentation 1/2/3/4/8; docstring "
-        "embedded as in source (cleandoc). Rendered per style in the documented syntax, parsed under random documented options (Google 8, Numpy 3, "
-        "Sphinx 1); Sphinx: free text then 0-6 groups of param/type, var/vartype, raises, returns/rtype fields under random aliases. Second stream: "
-        "perturbed renderings (dropped/added blank lines, shifted indentation, removed colons, duplicated or foreign fields) for model-vs-code only. "
-        "non-trivial = at least one non-text section; distinct by (style, options, text)")
-TRUSTED = ["abstraction: harness/props/c13.py ctx_sexp / wsecs_sexp map the generated parent and written structure to the model's pctx / list wsec",
-           "translator harness/props/c13.py:translate (keyword tables from the _section_kind dict literals; regex texts and Sphinx field-name sets "
-           "pinned, fail closed)",
+        "embedded as in source (cleandoc); blank lines between items / fields; Numpy parameters documented together, `, optional`, choices, three "
+        "default spellings. Rendered per style in the documented syntax, parsed under random documented options (Google 8, Numpy 3, Sphinx 1); "
+        "Sphinx: free text then 0-6 groups of param/type, var/vartype, raises, returns/rtype fields under random aliases, the same name as "
+        "parameter and attribute, type fields next to their field or anywhere. Second stream per style: perturbed renderings (dropped/added blank "
+        "lines, shifted indentation, removed colons, damaged dash lines and item heads, duplicated or foreign fields) for model-vs-code only. "
+        "Third stream per style: the same structures over arbitrary text (vertical tab, form feed, FS/GS/RS, lone CR, NEL, U+2028/9, non-ASCII "
+        "letters inside words). non-trivial = at least one non-text section; distinct by (style, options, text)")
+TRUSTED = ["abstraction: harness/props/c13.py ctx_sexp / wsecs_sexp / nsecs_sexp / xfields_sexp map the generated parent and written structure to the model's "
+           "pctx / list wsec / list nsec / list xfield; doc_lines = inspect.cleandoc(text.rstrip()).split('\\n') is the specification of the parsers' input lines",
+           "translator harness/props/c13.py:translate (keyword tables from the _section_kind dict literals; regex texts incl. the inline default-value "
+           "regex of numpy._read_parameters and Sphinx field-name sets pinned, fail closed)",
            "str(parse_docstring_annotation(text)) = text for the generated annotation spellings (checked on every case by the direct evaluation)"]
-ASSUMPTIONS = ["docstring lines are printable ASCII (the theorem's wf_secs requires it; the model's string functions agree with CPython on all ASCII incl. "
-               "tab, FF, FS; str.splitlines is modelled for newline only)",
+ASSUMPTIONS = ["theorems: docstring lines are printable ASCII (the well-formedness predicates require it; the models' string functions agree with CPython on all "
+               "ASCII incl. tab, VT, FF, CR, FS-US; text outside ASCII is checked directly against the implementation only)",
                "the docstring has an unindented line after its first line, otherwise inspect.cleandoc removes the indentation of the section body "
                "(a property of cleandoc, not of the parsers); the generator adds a summary line in that case",
                "free text does not start an indented block after a `word:` line (that is the documented admonition syntax) and comes first in Numpy / Sphinx "
@@ -1492,17 +1476,6 @@ def replay_witnesses(ctx):
         ctx.witness("C13-F6", s[1]["value"][0]["annotation"] == "int")
     except Exception:  # noqa: BLE001
         ctx.witness("C13-F6", False)
-    try:
-        s = impl_sections("Summary.\n\nReturns:\n    Page one\x0cpage two.\n", None, "google", {"returns_multiple_items": False})
-        ctx.witness("C13-F9", s[1]["value"][0]["description"] == "Page one\npage two.")
-    except Exception:  # noqa: BLE001
-        ctx.witness("C13-F9", False)
-    try:
-        m = griffe.visit("m", filepath=None, code="def f(a: int = 1, b: str = 'x'): ...\n")
-        s = impl_sections("Summary.\n\nParameters\n----------\na, b\n    Both.\n", m["f"], "numpy", {})
-        ctx.witness("C13-F10", s[1]["value"][1]["annotation"] == "int" and s[1]["value"][1]["value"] == "1")
-    except Exception:  # noqa: BLE001
-        ctx.witness("C13-F10", False)
     try:
         m = griffe.visit("m", filepath=None, code="def f(a: int): ...\n")
         s = impl_sections("Summary.\n\n:param a: The a.\n:type a: str\n", m["f"], "sphinx", {})
@@ -1661,12 +1634,12 @@ def explore_google(ctx, n: int, with_model: bool = True, exotic: float = 0.0):
     ws = [(r, w) for r, w in ws if w is not None and model_ok(r[3]) and not (set(r[0]) & {"ignore_init_summary", "returns_type_in_property_summary"})]
     m_render = ctx.model([["grender", r[1]["indent"], w] for r, w in ws])
     m_expect = ctx.model([["gexpect", ctx_sexp(r[1]["parent"]), w] for r, w in ws])
-    m_wf = ctx.model([["gwf", ctx_sexp(r[1]["parent"]), w] for r, w in ws])
-    m_parse = ctx.model([["gparse", opts_sexp({}), ctx_sexp(r[1]["parent"]), r[2]] for r, w in ws])
+    m_wf = ctx.model([["gwf", opts_sexp(r[0]), ctx_sexp(r[1]["parent"]), w] for r, w in ws])
+    m_parse = ctx.model([["gparse", opts_sexp(r[0]), ctx_sexp(r[1]["parent"]), r[2]] for r, w in ws])
     for ((o, d, l, t, p, got, exp), w), mr, me, mw, mp in zip(ws, m_render, m_expect, m_wf, m_parse):
         case = _case_json("google", o, d, t)
         ctx.count("google_spec_cases")
-        ctx.observe("google_wf", mw)
+        ctx.observe("google_wf", f"wf={mw} modes={'default' if all(opts_sexp(o)[:4]) else 'other'}")
         if mr != l:
             ctx.tie_failure("correspondence", "render_google(model) vs harness renderer", {"model": mr, "harness": l}, case)
         if me != model_shape(exp):
@@ -1742,6 +1715,60 @@ def explore_numpy(ctx, n: int, exotic: float = 0.0, with_model: bool = True):
         if mo != impl:
             ctx.tie_failure("correspondence", "parse_numpy(model) vs Docstring.parse('numpy')", {"model": mo, "impl": impl},
                             _case_json("numpy", o, d, t))
+    # (C) render / expectation / theorem instances
+    ws = [(r, nsecs_sexp(r[1])) for r in mc if not r[0].get("ignore_init_summary")]
+    ws = [(r, w) for r, w in ws if w is not None]
+    m_spec = ctx.model([["nspec", ctx_sexp(r[1]["parent"]), w] for r, w in ws])
+    m_parse = ctx.model([["nparse", [True, False], ctx_sexp(r[1]["parent"]), r[2]] for r, w in ws])
+    for ((o, d, l, t, got, exp, hit, po), w), (mr, me, mw, mg), mp in zip(ws, m_spec, m_parse):
+        case = _case_json("numpy", o, d, t)
+        ctx.count("numpy_spec_cases")
+        ctx.observe("numpy_wf", f"wf={mw} gapF6={mg}")
+        if mr != l:
+            ctx.tie_failure("correspondence", "render_numpy(model) vs harness renderer", {"model": mr, "harness": l}, case)
+        if me != model_shape(exp):
+            ctx.tie_failure("correspondence", "expect_numpy(model) vs harness expectation", {"model": me, "harness": model_shape(exp)}, case)
+        if mg != ("C13-F6" in hit):
+            ctx.tie_failure("correspondence", "gap_F6(model) vs harness classifier of C13-F6", {"model": mg, "harness": sorted(hit)}, case)
+        if mw and not mg:
+            ctx.count("numpy_theorem_instances")
+            if mp != ["ok", me]:
+                ctx.tie_failure("correspondence", "instance of C13_numpy_roundtrip fails in the extracted model", {"parse": mp, "expect": me}, case)
+            if got != exp:
+                ctx.tie_failure("correspondence", "wf_nsecs document (no known gap) does not round-trip on the implementation", {"got": got, "expected": exp}, case)
+
+
+def nsecs_sexp(doc: dict):
+    """The written Numpy structure as a term of the Coq type [list nsec]; None when it uses what the Coq spec does not cover
+    (Examples, choices, the bare `name` form of Returns items (finding C13-F5), free text after the first section)."""
+    out = []
+    for si, sec in enumerate(doc["sections"]):
+        k = sec["k"]
+        if k == "text":
+            if si:
+                return None
+            out.append(["text", sec["lines"]])
+        elif k == "admonition":
+            out.append(["adm", sec["header"], sec["lines"]])
+        elif k == "deprecated":
+            out.append(["deprecated", sec["header"], sec["version"], sec["lines"]])
+        elif k in ITEM_KINDS:
+            items = []
+            for it in sec["items"]:
+                if "choices" in it:
+                    return None
+                names = [] if it["name"] is None else [it["name"], *it.get("more_names", [])]
+                ann = it["ann"]
+                if k in ("functions", "classes") and ann is not None:
+                    ann = ann[len(it["name"]) + 1:-1]
+                if k in ("returns", "yields", "receives") and it["name"] is not None and it["ann"] is None and it["just_name_form"] == "bare":
+                    return None
+                default = [] if it["default"] is None else [[[" ", ": ", "="].index(it["default_form"]), it["default"]]]
+                items.append([names, _o(ann), default, bool(it.get("optional")), it["desc"], it.get("sep", 0)])
+            out.append(["items", k, sec["header"], items])
+        else:
+            return None
+    return out
 
 
 def perturb_numpy(rng, lines: list[str]) -> str:
@@ -1810,6 +1837,30 @@ def sfields_sexp(doc: dict):
             out.append(["returns", f["field"], f["desc"][0], f["desc"][1:]])
         else:
             return None
+    return out or None
+
+
+def xfields_sexp(doc: dict):
+    """The written Sphinx field list as a term of the Coq type [list xfield] (all seven field kinds, blank lines inside and
+    after descriptions); None when there is no field at all."""
+    out = []
+    for f in doc["fields"]:
+        k = f["f"]
+        sep = f.get("sep", 0)
+        if k == "param":
+            out.append(["param", f["field"], _o(f["inline"]), f["name"], f["desc"][0], f["desc"][1:] + [""] * sep])
+        elif k == "var":
+            out.append(["var", f["field"], f["name"], f["desc"][0], f["desc"][1:] + [""] * sep])
+        elif k == "raises":
+            out.append(["raises", f["field"], f["exc"], f["desc"][0], f["desc"][1:] + [""] * sep])
+        elif k == "returns":
+            out.append(["returns", f["field"], f["desc"][0], f["desc"][1:] + [""] * sep])
+        elif k == "type":
+            out.append(["type", f["name"], f["ann"], sep])
+        elif k == "vartype":
+            out.append(["vartype", f["name"], f["ann"], sep])
+        else:
+            out.append(["rtype", f["ann"], sep])
     return out or None
 
 
@@ -1891,6 +1942,31 @@ def explore_sphinx(ctx, n: int, with_model: bool = True, exotic: float = 0.0):
                 ctx.tie_failure("correspondence", "wf_sphinx document: implementation differs from expect_sphinx(model)",
                                 {"model_expect": me, "impl": raw}, case)
     cases = [c for c in cases if model_ok(c[2])]
+    # (C) the full written structure (all seven field kinds): render / expectation / known-gap predicate / theorem instances
+    xspec = []
+    for o, d, t, p, raw in cases:
+        fs = xfields_sexp(d)
+        if fs is not None and t in d.get("_rendered", ()) and model_ok(t):
+            xspec.append((o, d, t, raw, fs))
+    xouts = ctx.model([["xspec", ctx_sexp(d["parent"]), d["parent"]["kind"] in ("func", "gen", "init", "prop"), d["text"], fs]
+                       for o, d, t, raw, fs in xspec])
+    for (o, d, t, raw, fs), (mr, me, mw, mg) in zip(xspec, xouts):
+        ctx.count("sphinx_full_spec_cases")
+        ctx.observe("sphinx_full_wf", f"wf={mw} gapF8={mg}")
+        case = _case_json("sphinx", o, d, t)
+        exp, _ = expected_sphinx(d)
+        _, hit = expected_sphinx(d, defects=True)
+        if mr != render_sphinx(d):
+            ctx.tie_failure("correspondence", "render_sphinx_full(model) vs harness renderer", {"model": mr, "harness": render_sphinx(d)}, case)
+        if me != sphinx_shape(exp):
+            ctx.tie_failure("correspondence", "expect_sphinx_full(model) vs harness expectation", {"model": me, "harness": sphinx_shape(exp)}, case)
+        if bool(mg) != ("C13-F8" in hit):
+            ctx.tie_failure("correspondence", "gap_F8(model) vs harness classifier of C13-F8", {"model": mg, "harness": sorted(hit)}, case)
+        if mw and not mg:
+            ctx.count("sphinx_full_theorem_instances")
+            if raw and raw[0] == "exception" or me != sphinx_shape(raw):
+                ctx.tie_failure("correspondence", "wf_sphinx_full document (no known gap): implementation differs from expect_sphinx_full(model)",
+                                {"model_expect": me, "impl": raw}, case)
     outs = ctx.model([["sparse", ctx_sexp(d["parent"]), d["parent"]["kind"] in ("func", "gen", "init", "prop"), doc_lines(t)]
                       for o, d, t, p, raw in cases])
     for (o, d, t, p, raw), mo in zip(cases, outs):
